@@ -137,8 +137,11 @@ def check(run: Run) -> None:
         t = strip_sites(fp.term_of(s.value, n))
         if t[0] == "tvisit" and t[1].endswith("_resolve_called_lambdas") and t[2][0] == "tvisit" and t[2][1].endswith("_rewrite_captured_vars"):
             found = True
-            ctor = [c for c in calls_in(pa) if isinstance(c.func, ast.Name) and c.func.id == "_rewrite_captured_vars"]
-            ok = len(ctor) == 1 and strip_sites(fp.term_of(ctor[0].args[0]))[0] == "app" and strip_sites(fp.term_of(ctor[0].args[0]))[1][1].endswith("global_getclosurevars") and strip_sites(fp.term_of(ctor[0].args[0]))[2] == (src,)
+            from ..lib import call_events
+
+            ctor = [e for e in call_events(c3, pa, lambda nm: nm == cls.name) if e.args]
+            a0 = ctor[0].args[0] if len(ctor) == 1 else ("top", "?")
+            ok = len(ctor) == 1 and a0[0] == "app" and a0[1][0] == "global" and a0[1][1].endswith("global_getclosurevars") and a0[2] == (src,)
             run.check(ok, "C04.R3", pa, s, "the rewriter is built from global_getclosurevars(callable) inside parse_as_ast", "the capture table is not built from the callable's closure during the operator call")
             inner = t[2][2]
             ok2 = any(a[0] == "app" and a[1][1].endswith("_parse_source_for_lambda") for a in unphi_terms(inner))
@@ -211,10 +214,12 @@ def check_binders(run: Run, ctx: TermCtx, m, cls: ClassInfo, rule: str) -> None:
     for h in set(handlers.values()):
         fa = ctx.analysis(h)
         nodep = ("param", h.pos_params[1])
-        pushes = [c for c in calls_in(h) if isinstance(c.func, ast.Attribute) and c.func.attr == "append"]
+        from ..lib import call_events
+
+        pushes = [e for e in call_events(ctx, h, lambda n: n == "append") if e.args]
         ok_t = False
         for c in pushes:
-            t = strip_sites(fa.term_of(c.args[0]))
+            t = c.args[0]
             # names of all targets of all generators
             whole = contains(t, lambda s: s[0] == "app" and s[1] == ("global", "ast.walk") and len(s[2]) == 1 and s[2][0][0] == "attr" and s[2][0][2] == "target")
             ok_t = ok_t or (contains(t, lambda s: s == ("attr", nodep, "generators")) and whole and contains(t, lambda s: s[0] == "attr" and s[2] == "id"))
@@ -235,18 +240,18 @@ def check_binders(run: Run, ctx: TermCtx, m, cls: ClassInfo, rule: str) -> None:
 
 
 def _paired(run: Run, ctx, fi: FuncInfo, rule: str) -> None:
-    fa = ctx.analysis(fi)
-    cfg = fa.cfg
-    pushes = [c for c in calls_in(fi) if isinstance(c.func, ast.Attribute) and c.func.attr == "append"]
-    pops = [c for c in calls_in(fi) if isinstance(c.func, ast.Attribute) and c.func.attr == "pop"]
-    gvs = [c for c in calls_in(fi) if isinstance(c.func, ast.Attribute) and c.func.attr == "generic_visit"]
+    from ..lib import call_events, event_after, event_before
+
+    evs = call_events(ctx, fi, lambda n: n in ("append", "pop", "generic_visit"))
+    pushes = [e for e in evs if e.name == "append"]
+    pops = [e for e in evs if e.name == "pop"]
+    gvs = [e for e in evs if e.name == "generic_visit"]
     ok = len(pushes) == 1 and len(pops) == 1 and len(gvs) == 1
     if ok:
-        p, g, q = cfg.node_of(pushes[0]), cfg.node_of(gvs[0]), cfg.node_of(pops[0])
-        ok = cfg.dominates(p, g) and cfg.dominates(g, q) and cfg.postdominates(q, g) and p is not g and g is not q
-        same = strip_sites(fa.term_of(pushes[0].func.value)) == strip_sites(fa.term_of(pops[0].func.value))
-        ok = ok and same
-        tgt = strip_sites(fa.term_of(gvs[0].args[-1])) if gvs[0].args else None
+        p, g, q = pushes[0], gvs[0], pops[0]
+        ok = event_before(ctx, fi, p, g) and event_before(ctx, fi, g, q) and event_after(ctx, fi, q, g) and p.call is not g.call and g.call is not q.call
+        ok = ok and p.recv is not None and p.recv == q.recv
+        tgt = g.args[-1] if g.args else None
         ok = ok and tgt == ("param", fi.pos_params[1])
     run.check(ok, rule, fi, fi.node, f"{fi.name}: frame pushed before and popped after generic_visit(node) on every path", f"{fi.name} does not pair push / generic_visit(node) / pop on every path: bound names leak out of, or are not shadowed inside, their scope")
 
